@@ -3897,6 +3897,15 @@ impl BytecodeVM {
                     PropertyKey::String(interp.intern("__index__")),
                     JsValue::Number(0.0),
                 );
+                // (a key deleted before the loop reaches it is not visited)
+                if let JsValue::Object(source) = obj_val
+                    && !matches!(source.borrow().exotic, ExoticObject::Proxy(_))
+                {
+                    iter.borrow_mut().set_property(
+                        PropertyKey::String(interp.intern("__source__")),
+                        JsValue::Object(source.cheap_clone()),
+                    );
+                }
                 self.set_reg(dst, JsValue::Object(iter));
                 Ok(OpResult::Continue)
             }
@@ -4170,7 +4179,21 @@ impl BytecodeVM {
                     };
 
                     let elements = keys_arr.borrow().array_elements().map(|e| e.to_vec());
+                    let source = iter_obj
+                        .borrow()
+                        .get_property(&PropertyKey::String(interp.intern("__source__")));
+                    let mut index = index;
                     let (value, done) = if let Some(elems) = elements {
+                        // Skip the keys that have been deleted since the loop started
+                        while let (Some(key), Some(JsValue::Object(source))) =
+                            (elems.get(index), &source)
+                        {
+                            let prop_key = interp.property_key_from_value(key);
+                            if source.borrow().get_property(&prop_key).is_some() {
+                                break;
+                            }
+                            index += 1;
+                        }
                         if index < elems.len() {
                             let val = elems.get(index).cloned().unwrap_or(JsValue::Undefined);
                             (val, false)
